@@ -9,6 +9,7 @@ interior-pointer recovery by free/msize, and large-object placement.  The back e
 and content preservation are covered by the E-REAL shadow-heap monitor only (see checks/c17.py).
 -/
 import TbbVerif.Proofs.C17
+import TbbVerif.Proofs.C17Slab
 
 namespace TbbVerif.C17
 open TbbVerif.Cint
@@ -212,7 +213,50 @@ theorem heap_free_keeps_disjoint (h h' : List Blk) (start : Nat)
     exact hd.sublist (List.erase_sublist)
   · cases hf
 
+/-- **Slab ownership protocol: no object is handed out while it is live, whatever the interleaving.**
+Model `slabSys`: one owner thread running any program of `allocate` / `freeOwnObject` / `privatizePublicFreeList`
+steps over a slab of `cap` objects, any number of foreign threads each returning one object through
+`freePublicObject` (load of `publicFreeList`, then CAS, retried on failure).  For every schedule: the ghost
+flag `bad` (an object handed out while still with the user) is never raised, the live objects are distinct
+objects of the slab, and none of them is on the private or the public free list. -/
+theorem slab_no_double_handout (cap : Nat) (ops : List OwnerOp) (foreign : List Nat) (sched : List Tid) :
+    ((slabSys cap ops foreign).run sched).bad = false ∧
+    ((slabSys cap ops foreign).run sched).live.Nodup ∧
+    (∀ o ∈ ((slabSys cap ops foreign).run sched).live,
+        o < cap ∧ o ∉ ((slabSys cap ops foreign).run sched).freeList ∧ o ∉ ((slabSys cap ops foreign).run sched).publicList) := by
+  obtain ⟨inv, hcap⟩ := slab_inv_run cap ops foreign sched
+  generalize (slabSys cap ops foreign).run sched = s at *
+  refine ⟨inv.not_bad, ?_, fun o ho => ?_⟩
+  · rw [List.nodup_iff_count]
+    intro a
+    have h := inv.one_place a
+    simp only [places] at h
+    split at h <;> omega
+  · have hpos : 0 < s.live.count o := List.count_pos_iff.mpr ho
+    have h := inv.one_place o
+    simp only [places] at h
+    rw [hcap] at h
+    split at h
+    · rename_i hlt
+      exact ⟨hlt, List.count_eq_zero.mp (by omega), List.count_eq_zero.mp (by omega)⟩
+    · omega
+
+/-- **`allocatedCount` never under-counts**: in every reachable state it equals the number of objects with the
+user plus those on their way back through the public free list (pushed or being pushed), so `allocatedCount == 0`
+(the test `Block::empty()` uses before a slab is reset or returned to the back end) implies that no object of the
+slab is live and nothing is pending on the public list. -/
+theorem slab_empty_means_no_live_object (cap : Nat) (ops : List OwnerOp) (foreign : List Nat) (sched : List Tid)
+    (h0 : ((slabSys cap ops foreign).run sched).allocCount = 0) :
+    ((slabSys cap ops foreign).run sched).live = [] ∧ ((slabSys cap ops foreign).run sched).publicList = [] := by
+  obtain ⟨inv, _⟩ := slab_inv_run cap ops foreign sched
+  have h := inv.alloc_eq
+  rw [h0] at h
+  exact ⟨List.length_eq_zero_iff.mp (by omega), List.length_eq_zero_iff.mp (by omega)⟩
+
 /-! Non-vacuity: concrete instances of every hypothesis pattern used above. -/
+example :
+    let r := (slabSys 3 [.alloc, .alloc, .privatize, .alloc, .free 1, .alloc] [0]).run [0, 0, 1, 1, 0, 0, 0, 0]
+    r.handed = [0, 1, 0, 1] ∧ r.live = [1, 0] ∧ r.allocCount = 2 ∧ r.bad = false := by decide
 example : indexOf 24 = some 3 ∧ objectSizeOf 24 = some 32 ∧ indexOf 65 = some 8 ∧ objectSizeOf 65 = some 80 ∧
     indexOf 1025 = some 24 ∧ objectSizeOf 8128 = some 8128 ∧ objectSizeOf 8129 = none := by decide
 example : slabCapacity 8128 = 2 ∧ objStart 8128 2 = 128 ∧ bumpSeq 8128 5 (bumpInit 8128) = [8256, 128] := by decide
